@@ -352,10 +352,18 @@ def _events_one_manager(o, ev0, comp, last=True):
         if e['hook'] == 'on_node_complete' and e.get('error') is None and e.get('done') is not None:
             # the event has been delivered when the (possibly slow) callback has returned
             ok_complete.setdefault(comp.to_spec_id(e['node']), []).append(e['done'])
+    starts = {}
+    for e in ev0:
+        if e['hook'] == 'on_node_start':
+            starts.setdefault(comp.to_spec_id(e['node']), []).append(e['seq'])
     for b in o.bodies:
+        # the engine collects the arguments of a node BEFORE it announces its start: the values had been delivered
+        # when the consumer's on_node_start was emitted (the body may begin much later behind a slow callback)
+        mine_starts = [q for q in starts.get(b['node'], []) if q < b['seq']]
+        delivered_at = max(mine_starts) if mine_starts else b['seq']
         for kw, v in b['kwargs'].items():
             if R.is_value(v) and v[1] in bodies and v[1] != b['node']:
-                if not any(s < b['seq'] for s in ok_complete.get(v[1], [])):
+                if not any(s < delivered_at for s in ok_complete.get(v[1], [])):
                     out.append(('value-delivered-before-complete-event',
                                 f'{b["node"]}.{kw} received the value of {v[1]} before its successful '
                                 f'on_node_complete had been delivered (callback returned)'))
